@@ -9,7 +9,12 @@ import (
 // C04 (batch): an entry whose scalar half is >= L reports false in default and ZIP-215 mode, at any position
 // of a chunk and in the single-verification remainder.
 func vh_C04_batch_rejects_S_ge_L() {
-	n := 3 + vCase(0, 2) // 3 (remainder path), 4, 5 (batch path)
+	n := 3 + vCase(0, 3) // 3 (remainder path), 4, 5 (batch path), 68 (second chunk on the batch path)
+	vReplicate = 0
+	if n == 6 {
+		n = 68
+		vReplicate = 64
+	}
 	j := vCase(0, 2)
 	pos := 0
 	switch j {
@@ -17,6 +22,9 @@ func vh_C04_batch_rejects_S_ge_L() {
 		pos = n / 2
 	case 2:
 		pos = n - 1
+	}
+	if n == 68 && pos < 64 {
+		pos = 66
 	}
 	r := vBatchRun(n, -1, 0, 0)
 	if !r.entropyOK {
@@ -26,6 +34,10 @@ func vh_C04_batch_rejects_S_ge_L() {
 	vReach("batch with S >= L at one position")
 	vAssert(!r.panicked && vIsNilErr(r.err) && len(r.valid) == n, "ordinary result")
 	vAssert(!r.valid[pos] && !r.ok, "entry with S >= L reports false")
+	if n == 68 {
+		// and nobody else is blamed for it: the replicated first chunk reports its own verdict
+		vAssert(r.valid[pos-64] == vsVerifyPredicate(r.es[pos-64].pk, r.es[pos-64].msg, r.es[pos-64].sig, 0, "", r.zip), "the entry 64 positions earlier keeps its own verdict")
+	}
 }
 
 // C05 (batch): with the ZIP-215 flag set the small-order exclusion is not applied, without it it is.
@@ -150,6 +162,21 @@ func vh_C13_batch_malformed_entries() {
 	}
 	vAssert(vIsNilErr(r.err) && len(r.valid) == n, "malformed entries are not an error")
 	vAssert(!r.valid[pos] && !r.ok, "the malformed entry reports false")
+}
+
+// C07 (batch): Ed25519ph with the EMPTY context still hashes dom2 (flag 1, length 0) on the batch path, exactly as
+// single verification does: a plain Ed25519 signature over a 64-byte message is not accepted as Ed25519ph
+func vh_C07_batch_ph_empty_context() {
+	n := 4 + vCase(0, 1)
+	vReplicate = 0
+	r := vBatchRun(n, -1, 0, 3)
+	if !r.entropyOK {
+		return
+	}
+	vReach("batch verified")
+	for i := 0; i < n; i++ {
+		vAssert(r.valid[i] == vsVerifyPredicate(r.es[i].pk, r.es[i].msg, r.es[i].sig, 2, "", r.zip), "entry verdict == Ed25519ph predicate with the empty context")
+	}
 }
 
 // C09 (batch call sites): in default mode VerifyBatch applies the small-order exclusion to the key and the R of
